@@ -494,30 +494,43 @@ def exceeds (fl : FloatOps) : Vec → Vec → Vec → Bool
     (if t == 0 then false else if a == 0 then false else decide (fl.roundPct e a > t)) || exceeds fl ts es as
   | _, _, _ => false
 
-/-- verdicts: 0 pass, 1 usage exceeds, 2 aggregated usage exceeds, 3 metric expired, 4 error. -/
+/-- profile selection of Filter: (prodPod, thresholds, aggregated profile when that one is used). -/
+def selProfile (cfg : Cfg) (q : FilterQ) : Bool × Vec × Option AggProfile :=
+  let prof := nodeProfile cfg.d (argsProfile cfg.d q.args) q.customKind q.custom
+  let prodPod := !vEmpty prof.prod && q.pod.cls == 1
+  if prodPod then (true, prof.prod, none) else
+    match prof.agg with
+    | some a => (false, a.thr, some a)
+    | none => (false, prof.usage, none)
+
+def selTyp (s : Option AggProfile) : Nat := match s with | some a => a.typ | none => 0
+def selDur (s : Option AggProfile) : Nat := match s with | some a => a.dur | none => 0
+
+/-- the expiry switch is engaged for this query and report:
+`FilterExpiredNodeMetrics && NodeMetricExpirationSeconds != nil && isNodeMetricExpired`. -/
+def expirySkip (q : FilterQ) (m : Metric) : Bool :=
+  q.filterExpired == 1 && q.hasExp && metricExpired m q.expSec
+
+/-- the part of Filter after GetNodeMetricAndEstimatedOfExisting (`none` = NotFound).
+verdicts: 0 pass, 1 usage exceeds, 2 aggregated usage exceeds, 3 metric expired, 4 error. -/
+def verdict (cfg : Cfg) (q : FilterQ) (thr : Vec) (isAgg : Bool) : Option (Metric × Vec) → Nat
+  | none => 0
+  | some (m, est) =>
+    if expirySkip q m then
+      (if q.enableWhenExpired == 0 then 3 else 0)
+    else if !m.hasInfo then 0
+    else if exceeds cfg.fl thr (vadd est (estimateVec cfg q.pod)) (allocOf q) then
+      (if isAgg then 2 else 1)
+    else 0
+
+/-- Plugin.Filter -/
 def filter (cfg : Cfg) (c : Cache) (q : FilterQ) : Nat :=
   if !q.hasNode then 4 else
   if q.daemon then 0 else
-  let prof := nodeProfile cfg.d (argsProfile cfg.d q.args) q.customKind q.custom
-  let prodPod := !vEmpty prof.prod && q.pod.cls == 1
-  let sel : Vec × Option AggProfile :=
-    if prodPod then (prof.prod, none) else
-      match prof.agg with
-      | some a => (a.thr, some a)
-      | none => (prof.usage, none)
-  let thr := sel.1
+  let sel := selProfile cfg q
+  let thr := sel.2.1
   if vEmpty thr then 0 else
-  let alloc := allocOf q
-  let aggTyp := match sel.2 with | some a => a.typ | none => 0
-  let aggDur := match sel.2 with | some a => a.dur | none => 0
-  match estimatedOfExisting cfg (c.get q.node) prodPod aggTyp aggDur with
-  | none => 0
-  | some (m, est) =>
-    if q.filterExpired == 1 && q.hasExp && metricExpired m q.expSec then
-      (if q.enableWhenExpired == 0 then 3 else 0)
-    else if !m.hasInfo then 0
-    else
-      let est := vadd est (estimateVec cfg q.pod)
-      if exceeds cfg.fl thr est alloc then (if sel.2.isSome then 2 else 1) else 0
+    verdict cfg q thr sel.2.2.isSome
+      (estimatedOfExisting cfg (c.get q.node) sel.1 (selTyp sel.2.2) (selDur sel.2.2))
 
 end KoordVerif.C08
